@@ -273,6 +273,35 @@ fn ip_construct(ctx: &mut Ctx, rng: &mut Rng, fl: Flavour, seq: &Seq) -> Option<
     Some(IpCase { fl, set, model, blocks })
 }
 
+/// Resources built with `IpResourcesBuilder`, spreading the blocks over
+/// several `blocks()` calls on the same builder (the result must be the union).
+pub fn builder_multi_call(ctx: &mut Ctx, rng: &mut Rng, fl: Flavour) {
+    use rpki::repository::resources::IpResourcesBuilder;
+    let seq = sequence(fl, rng, 6);
+    let model = fl.model(&seq.blocks);
+    let calls = 1 + rng.usize_below(3);
+    let mut builder = IpResourcesBuilder::new();
+    let chunk = (seq.blocks.len() / calls).max(1);
+    let mut used = 0;
+    for c in 0..calls {
+        let part: Vec<(u128, u128)> = if c + 1 == calls { seq.blocks[used.min(seq.blocks.len())..].to_vec() } else { seq.blocks.iter().skip(used).take(chunk).copied().collect() };
+        used += part.len();
+        let items: Vec<IpBlock> = part.iter().map(|(a, b)| lib_block(fl, *a, *b, rng.below(3))).collect();
+        builder.blocks(|b| {
+            for it in items {
+                b.push(it)
+            }
+        });
+    }
+    let d = || json!({"flavour": fl.name(), "blocks": blocks_json(&seq.blocks), "calls": calls});
+    if let Some(res) = ctx.no_panic(&format!("{}:resources-builder", fl.name()), d, || builder.finalize()) {
+        ctx.sig(&format!("{} resources-builder calls={} {}", fl.name(), calls, seq.shape));
+        let blocks = res.to_blocks().unwrap_or_default();
+        check_set(ctx, fl, "resources-builder", &observe_ip(&blocks), &model, d);
+    }
+    ctx.drain_chain_hook(d);
+}
+
 pub fn small_collect(ctx: &mut Ctx, fl: Flavour, blocks: &[(u128, u128)], model: &IntervalSet) {
     let items: Vec<IpBlock> = blocks.iter().map(|(a, b)| lib_block(fl, *a, *b, 1)).collect();
     if let Some(s) = ctx.no_panic("v6:from_iter-raw-ranges", || blocks_json(blocks), || IpBlocks::from_iter(items)) {
@@ -502,6 +531,9 @@ fn ip_pair(ctx: &mut Ctx, rng: &mut Rng, a: &IpCase, b: &IpCase) {
     for (lo, hi) in a.blocks.iter().take(3) {
         if lo <= hi {
             probes.push((*lo, *hi));
+            // single elements sitting exactly on the ends of a block
+            probes.push((*lo, *lo));
+            probes.push((*hi, *hi));
             if *hi < fl.max() {
                 probes.push((*lo, hi + 1));
                 probes.push((hi + 1, hi + 1));
@@ -791,6 +823,7 @@ pub fn run_ip(ctx: &mut Ctx) {
                 }
             }
             ip_reversed(ctx, &mut rng, fl);
+            builder_multi_call(ctx, &mut rng, fl);
             ranges(ctx, &mut rng, fl, if ctx.stage == Stage::Miri { 3 } else { 12 });
             per_fl.push(cases);
         }
